@@ -157,7 +157,10 @@ func checkReplySinkGuards(c *report.Ctx) {
 		failedWrite := false
 		for _, w := range s.writes {
 			failedWrite = failedWrite || s.facts.Holds(e.Ret.Block(), func(f an.Fact) bool {
-				return an.CmpNil(f, false, func(v ssa.Value) bool { cl, idx := an.CallOf(v); return cl != nil && ssa.Instruction(cl) == ssa.Instruction(w) && idx == 1 })
+				return an.CmpNil(f, false, func(v ssa.Value) bool {
+					cl, idx := an.CallOf(v)
+					return cl != nil && ssa.Instruction(cl) == ssa.Instruction(w) && idx == 1
+				})
 			})
 		}
 		c.Check("R-ORDER", sprintf("%s/exit%d-reply-marked", name, i), "once a reply was produced the reservation is marked ReplySent before returning (so no second reply can follow)", must&1 != 0 || failedWrite, an.InstrPos(e.Ret), 1, "ReplySent=true certainly before: %v; failed-write exit: %v", must&1 != 0, failedWrite)
